@@ -1,5 +1,6 @@
 import SparseSpace.Properties.C11
 import SparseSpace.Properties.C11b
+import SparseSpace.Properties.C11gen
 #print axioms SparseSpace.C11.romberg_coeff_sum
 #print axioms SparseSpace.C11.romberg_coeff_order
 #print axioms SparseSpace.C11.slice_weights
@@ -34,3 +35,12 @@ import SparseSpace.Properties.C11b
 #print axioms SparseSpace.C11b.romberg_table_value
 #print axioms SparseSpace.C11b.balanced_degree
 #print axioms SparseSpace.C11b.balanced_degree_monomial
+#print axioms SparseSpace.C11gen.step_width_agrees
+#print axioms SparseSpace.C11gen.romberg_coefficient_agrees
+#print axioms SparseSpace.C11gen.get_coefficient_agrees
+#print axioms SparseSpace.C11gen.class_exponents
+#print axioms SparseSpace.C11gen.trapezoidal_weights_agree
+#print axioms SparseSpace.C11gen.simpson_weights_agree
+#print axioms SparseSpace.C11gen.weights_forwarders_agree
+#print axioms SparseSpace.C11gen.gen_coeff_sum
+#print axioms SparseSpace.C11gen.gen_coeff_order
